@@ -50,6 +50,9 @@ T48Add(t, k) ==
 InWindow(now, time, fudge) ==
   LET d == T48AbsDiff(now, time) IN d[1] = 0 /\ d[2] = 0 /\ d[3] <= fudge
 
+\* the time signed is not older than `slack' seconds before the clock value `handed' (when the signer got the message)
+SignedNotBefore(t, handed, slack) == ~T48Less(T48Add(t.time, slack), handed)
+
 -----------------------------------------------------------------------------
 (* Reading the little of a message that TSIG needs *)
 
